@@ -1,3 +1,4 @@
+import Oidc.Proofs.CodeCache
 import Oidc.Shapes
 import Oidc.Proofs.CacheComplete
 import Oidc.Facts
@@ -103,5 +104,37 @@ theorem text_NewCache_ok : Oidc.Shapes.Text_NewCache := by unfold Oidc.Shapes.Te
 theorem text_Cache_Close_ok : Oidc.Shapes.Text_Cache_Close := by unfold Oidc.Shapes.Text_Cache_Close; rfl
 theorem text_Cache_startAutoCleanup_ok : Oidc.Shapes.Text_Cache_startAutoCleanup := by unfold Oidc.Shapes.Text_Cache_startAutoCleanup; rfl
 theorem text_autoCleanupRoutine_ok : Oidc.Shapes.Text_autoCleanupRoutine := by unfold Oidc.Shapes.Text_autoCleanupRoutine; rfl
+
+/-! ## The same statements about the code itself: the functions below are `Oidc.Generated.Code`, which `tools/go2lean` translates
+    from /repo's source, statement by statement, on every run (meaning of the Go constructs: `Oidc/GoLib.lean`) -/
+open Oidc.Generated Oidc.CodeRefine in
+/-- cache.go as translated — `Set`, `Get`, `Delete`, `Cleanup` with `evictOldest` and `removeItem` on the three structures — after
+    any history from `NewCache()`: a hit of the translated `Get` returns the value of the most recent store of that key, not deleted
+    since, lifetime not elapsed (values seen through any `enc`; take it injective to read "the exact value") -/
+theorem code_get_sound (enc : Go.Any → Nat) (n : Int) (hn : 0 ≤ n) (ops : List COp) (t0 now : Int) (k : Go.Str) (v : Go.Any)
+    (hm : Mono t0 (ops.map (COp.abs enc)) now)
+    (h : (Code.Cache_Get now (ops.foldl codeStep ⟨[], [], [], n⟩) k).1 = (v, true)) :
+    ∃ ts ttl, spec (ops.map (COp.abs enc)) (String.ofList k) = some (enc v, ts, ttl) ∧ ts ≤ now ∧ now < ts + ttl := by
+  have hg := code_get_history enc n hn ops now k
+  simp only [h, if_true] at hg
+  have := get_sound false n.toNat (ops.map (COp.abs enc)) t0 now (String.ofList k) (enc v) hm hg.symm
+  simpa using this
+
+open Oidc.Generated Oidc.CodeRefine in
+/-- … and an entry stored with a non-positive lifetime is never returned by the translated `Get` -/
+theorem code_nonpositive_invisible (enc : Go.Any → Nat) (n : Int) (hn : 0 ≤ n) (ops : List COp) (t0 now : Int) (k : Go.Str) (v : Go.Any)
+    (hm : Mono t0 (ops.map (COp.abs enc)) now)
+    (h : (Code.Cache_Get now (ops.foldl codeStep ⟨[], [], [], n⟩) k).1 = (v, true)) :
+    ∃ ts ttl, spec (ops.map (COp.abs enc)) (String.ofList k) = some (enc v, ts, ttl) ∧ 0 < ttl := by
+  have hg := code_get_history enc n hn ops now k
+  simp only [h, if_true] at hg
+  exact nonpositive_invisible n.toNat (ops.map (COp.abs enc)) t0 now (String.ofList k) (enc v) hm hg.symm
+
+open Oidc.Generated Oidc.CodeRefine in
+/-- the translated `Cleanup` is the model's: it removes exactly the entries whose lifetime has elapsed (the "within 10 %" disjunct of
+    its condition never holds for a live entry: `cleanupCond`) -/
+theorem code_Cleanup (enc : Go.Any → Nat) (now : Int) (c : Go.CacheS) (h : CInv enc c) :
+    absC enc (Code.Cache_Cleanup now c) = Oidc.CacheImpl.cleanup false (absC enc c) now :=
+  (Cleanup_refines enc now c h).1
 
 end Oidc.Props.C12
